@@ -114,7 +114,10 @@ func (f *decompressor) step() (err error) {
 		return io.EOF
 	}
 
-	if state.input == nil {
+	if state.input == nil && state.phase == phaseStreamEnd {
+		// the final block is decoded: what is left is handed out without asking the source for more
+		f.peekSize = 0
+	} else if state.input == nil {
 		// wait for one byte more than the bit buffer already holds, not for a full buffer
 		_, err = f.rBuf.Peek(int(state.bitsLen/8) + 1)
 		state.input, _ = f.rBuf.Peek(f.rBuf.Buffered())
